@@ -318,7 +318,7 @@ def execute(case, tape):
 
 
 RUN_TIMEOUT_S = 180
-BUDGET = {"quick": (2400, 80), "thorough": (40000, 900)}
+BUDGET = {"quick": (2400, 80), "thorough": (36000, 1000)}
 REAL = ["HttpCommunicationLayer.send_msg", "MPCHttpHandler.do_POST", "requests (Request.prepare: "
         "header stringification and JSON encoding with allow_nan=False)",
         "pydcop.utils.simple_repr", "custom reprs of messages/links/nodes", "AgentDef pickling",
